@@ -259,108 +259,119 @@ func handleMisuse(raw []byte) interface{} {
 		if t.Only != "" && t.Only != state {
 			return
 		}
-		_, sv, err := xstate.Replay(cfg, t.Path, nil, nil, func(e *pagedrv.Env) {
-			if e.Dead || e.T != nil || e.F == nil {
-				return
-			}
-			e.Viol = nil
-			tx, pg, ids, live := prepare(e)
-			if e.Dead || tx == nil {
-				return
-			}
-			snap := func() string {
-				k := e.F.VerifSnapshot()
-				k.Stats = txfile.FileStats{}
-				js, _ := json.Marshal(k)
-				s := string(js)
-				if live {
-					ts, _ := json.Marshal(tx.VerifTxState())
-					s += string(ts)
-				}
-				return s
-			}
-			n := len(txCalls)
-			if isPage {
-				n = len(pageCalls)
-			}
-			for i := 0; i < n; i++ {
-				var name string
-				var w want
-				var err error
-				before := snap()
-				var pn string
-				if isPage {
-					c := pageCalls[i]
-					name, w = c.name, pageWant(state, c.name)
-					if pg == nil {
-						continue
-					}
-					pn = pagedrv.Try(func() { err = c.fn(pg, cfg.PageSize) })
-				} else {
-					c := txCalls[i]
-					name, w = c.name, txWant(state, c.name)
-					if c.name == "Page(freed)" && ids.freed == 0 || c.name == "Page(live)" && ids.live == 0 || c.name == "Page(beyond-snapshot)" && ids.beyond == 0 {
-						continue
-					}
-					if !isMisuse(w) && (c.name == "Commit" || c.name == "Rollback" || c.name == "Close" || c.name == "Alloc" || c.name == "AllocN(2)" || c.name == "Flush" || c.name == "CheckpointWAL") && (state == "active" || state == "readonly" || state == "readonly+writer") {
-						continue // valid use that changes the receiver: not part of the matrix
-					}
-					pn = pagedrv.Try(func() { err = c.fn(tx, ids) })
-				}
-				res.Cells++
-				recv := "tx"
-				if isPage {
-					recv = "page"
-				}
-				cell := fmt.Sprintf("%s[%s].%s", recv, state, name)
-				if pn != "" {
-					res.Outcomes["panic"]++
-					report(state, "misuse/panic/"+cell, "%s panicked: %s", cell, firstLine(pn))
-					e.Dead = true
+		ncalls := len(txCalls)
+		if isPage {
+			ncalls = len(pageCalls)
+		}
+		// every cell gets a fresh receiver: the outcome of one call must not depend on the calls tried before
+		for only := 0; only < ncalls; only++ {
+			only := only
+			_, sv, err := xstate.Replay(cfg, t.Path, nil, nil, func(e *pagedrv.Env) {
+				if e.Dead || e.T != nil || e.F == nil {
 					return
 				}
-				if msg := judge(w, err); msg != "" {
-					res.Outcomes["wrong-result"]++
-					report(state, "misuse/result/"+cell, "%s %s", cell, msg)
-				} else {
-					res.Outcomes["ok:"+w.String()]++
+				e.Viol = nil
+				tx, pg, ids, live := prepare(e)
+				if e.Dead || tx == nil {
+					return
 				}
-				if isMisuse(w) && err != nil {
-					if after := snap(); after != before {
-						report(state, "misuse/changed-state/"+cell, "%s returned an error but changed the state of the file or of the running transaction", cell)
+				snap := func() string {
+					k := e.F.VerifSnapshot()
+					k.Stats = txfile.FileStats{}
+					js, _ := json.Marshal(k)
+					s := string(js)
+					if live {
+						ts, _ := json.Marshal(tx.VerifTxState())
+						s += string(ts)
+					}
+					return s
+				}
+				n := len(txCalls)
+				if isPage {
+					n = len(pageCalls)
+				}
+				for i := 0; i < n; i++ {
+					if i != only {
+						continue
+					}
+					var name string
+					var w want
+					var err error
+					before := snap()
+					var pn string
+					if isPage {
+						c := pageCalls[i]
+						name, w = c.name, pageWant(state, c.name)
+						if pg == nil {
+							continue
+						}
+						pn = pagedrv.Try(func() { err = c.fn(pg, cfg.PageSize) })
+					} else {
+						c := txCalls[i]
+						name, w = c.name, txWant(state, c.name)
+						if c.name == "Page(freed)" && ids.freed == 0 || c.name == "Page(live)" && ids.live == 0 || c.name == "Page(beyond-snapshot)" && ids.beyond == 0 {
+							continue
+						}
+						if !isMisuse(w) && (c.name == "Commit" || c.name == "Rollback" || c.name == "Close" || c.name == "Alloc" || c.name == "AllocN(2)" || c.name == "Flush" || c.name == "CheckpointWAL") && (state == "active" || state == "readonly" || state == "readonly+writer") {
+							continue // valid use that changes the receiver: not part of the matrix
+						}
+						pn = pagedrv.Try(func() { err = c.fn(tx, ids) })
+					}
+					res.Cells++
+					recv := "tx"
+					if isPage {
+						recv = "page"
+					}
+					cell := fmt.Sprintf("%s[%s].%s", recv, state, name)
+					if pn != "" {
+						res.Outcomes["panic"]++
+						report(state, "misuse/panic/"+cell, "%s panicked: %s", cell, firstLine(pn))
+						e.Dead = true
+						return
+					}
+					if msg := judge(w, err); msg != "" {
+						res.Outcomes["wrong-result"]++
+						report(state, "misuse/result/"+cell, "%s %s", cell, msg)
+					} else {
+						res.Outcomes["ok:"+w.String()]++
+					}
+					if isMisuse(w) && err != nil {
+						if after := snap(); after != before {
+							report(state, "misuse/changed-state/"+cell, "%s returned an error but changed the state of the file or of the running transaction", cell)
+						}
 					}
 				}
-			}
-			// the receiver is finished or discarded; the file must still hold the model state
-			if live {
-				pagedrv.Try(func() { tx.Close() })
-			}
-			if e.Tx != nil && e.Tx != tx { // the helper writer of "readonly+writer"
-				pagedrv.Try(func() { e.Tx.Rollback() })
-			}
-			e.Tx, e.T = nil, nil
-			if !e.VerifyAgainst(e.M, "after the misuse calls", "misuse/committed-state") {
-				for _, v := range e.Viol {
-					report(state, v.Class+"/"+state, "%s: %s", state, v.Msg)
+				// the receiver is finished or discarded; the file must still hold the model state
+				if live {
+					pagedrv.Try(func() { tx.Close() })
 				}
+				if e.Tx != nil && e.Tx != tx { // the helper writer of "readonly+writer"
+					pagedrv.Try(func() { e.Tx.Rollback() })
+				}
+				e.Tx, e.T = nil, nil
+				if !e.VerifyAgainst(e.M, "after the misuse calls", "misuse/committed-state") {
+					for _, v := range e.Viol {
+						report(state, v.Class+"/"+state, "%s: %s", state, v.Msg)
+					}
+				}
+				e.Viol = nil
+				// and a following transaction works
+				e.SyncTxid()
+				e.Apply(O{K: pagedrv.OBegin})
+				if !e.Dead {
+					e.Apply(O{K: pagedrv.OAlloc, A: 1})
+					e.Apply(O{K: pagedrv.OCommit})
+				}
+				for _, v := range e.Viol {
+					report(state, "misuse/afterwards/"+v.Class+"/"+state, "after misuse of %s: %s", state, v.Msg)
+				}
+			})
+			if err != nil {
+				res.EngineError = err.Error()
 			}
-			e.Viol = nil
-			// and a following transaction works
-			e.SyncTxid()
-			e.Apply(O{K: pagedrv.OBegin})
-			if !e.Dead {
-				e.Apply(O{K: pagedrv.OAlloc, A: 1})
-				e.Apply(O{K: pagedrv.OCommit})
+			for _, v := range sv {
+				report(state, "misuse/"+v.Class+"/"+state, "%s: %s", state, v.Msg)
 			}
-			for _, v := range e.Viol {
-				report(state, "misuse/afterwards/"+v.Class+"/"+state, "after misuse of %s: %s", state, v.Msg)
-			}
-		})
-		if err != nil {
-			res.EngineError = err.Error()
-		}
-		for _, v := range sv {
-			report(state, "misuse/"+v.Class+"/"+state, "%s: %s", state, v.Msg)
 		}
 	}
 
